@@ -367,7 +367,8 @@ def _symbolic_one(eng, node, st: State, fi, kind, g, desc, restore):
     # dict
     key_t = val_t
     value_t = ite_chain(1)
-    if not _injective_key(eng, key_t, xval, bound, desc) and not _key_is_bound(eng, normal, key_t, bound, desc, member):
+    if not _injective_key(eng, key_t, xval, bound, desc) and not _key_is_bound(eng, normal, key_t, bound, desc, member) \
+            and not _value_determined_by_key(key_t, value_t, keep_cond, bound, sym.type_constraint(xval, ety, eng.reg)):
         raise Unsupported(f"dict comprehension whose key is not known to be injective at line {node.lineno}")
     v1 = kept[0][2]
     v1ty = getattr(v1, "ty", ANY) if all(repr(getattr(b, "ty", ANY)) == repr(getattr(v1, "ty", ANY)) for _, _, b in kept) else ANY
@@ -415,6 +416,26 @@ def _key_is_bound(eng, st, key_t, bound, desc, member):
     q.add(member)
     q.add(sym.type_constraint(bound[0], desc.ety, eng.reg))
     q.add(key_t != bound[0])
+    return q.check() == z3.unsat
+
+
+def _value_determined_by_key(key_t, value_t, keep_cond, bound, typed_elem):
+    """two elements with the same key contribute the same value (and are kept or dropped together): the result does not depend on
+    which of them 'wins', so the defining formula  forall x: R[key(x)] == value(x)  is consistent (e.g. {k: table[k].f for k in a_list})"""
+    if len(bound) != 1:
+        return False
+    b = bound[0]
+    b1, b2 = z3.Const(sym.fresh_name("b1"), b.sort()), z3.Const(sym.fresh_name("b2"), b.sort())
+    k1, k2 = z3.substitute(key_t, (b, b1)), z3.substitute(key_t, (b, b2))
+    v1, v2 = z3.substitute(value_t, (b, b1)), z3.substitute(value_t, (b, b2))
+    c1, c2 = z3.substitute(keep_cond, (b, b1)), z3.substitute(keep_cond, (b, b2))
+    q = z3.Solver()
+    q.set("timeout", 2000)
+    q.add(k1 == k2, z3.Or(v1 != v2, c1 != c2))
+    q.add(z3.substitute(typed_elem, (b, b1)), z3.substitute(typed_elem, (b, b2)))  # the elements are well-typed (annotation of the source)
+    import os
+    if os.environ.get("PYVC_DEBUG"):
+        print("key", key_t.sexpr()[:300], "\nvalue", value_t.sexpr()[:600], "\nkeep", keep_cond, q.check())
     return q.check() == z3.unsat
 
 
